@@ -864,12 +864,12 @@ class Executor:
             ty = self.resolve_ty(tyraw, subst)
             trait_last = trait.rsplit("::", 1)[-1]
             argtys = [self.tyof(st, a) for a in args]
-            b, binds = self.find_impl(meth, ty, argtys, exclude=caller)
+            b, binds = self.find_impl(meth, ty, argtys, exclude=caller, trait=trait_last)
             if b is not None:
                 return self.exec_body(st, b, args, binds)
             d = self.P.fns.get("%s::%s" % (trait_last, meth))
             if d:
-                ov = self.find_override(d[-1], meth, ty, caller)
+                ov = self.find_override(d[-1], meth, ty, caller, trait_last)
                 if ov is not None:
                     return self.exec_body(st, ov, args, {})
                 return self.exec_body(st, d[-1], args, {"Self": ty})
@@ -884,14 +884,16 @@ class Executor:
             head = ty_head_args(ty)[0]
             if head not in ("Option", "Result", "bool", "Arguments", "Argument") and not tybase.startswith(("core::", "std::", "alloc::", "fpdec::")):
                 argtys = [self.tyof(st, a) for a in args]
-                b, binds = self.find_impl(meth, ty, argtys, inherent=True, exclude=caller)
+                b, binds = self.find_impl(meth, ty, argtys, inherent=True, exclude=caller, trait=None)
                 if b is not None:
                     return self.exec_body(st, b, args, binds)
             return self.summary(st, ty, None, meth, args, subst, callee)
         return self.summary(st, None, None, callee, args, subst, callee)
 
-    def find_impl(self, meth, ty, argtys, inherent=False, exclude=None):
-        key = (meth, ty, tuple(argtys), inherent, exclude.index if exclude is not None else None)
+    def find_impl(self, meth, ty, argtys, inherent=False, exclude=None, trait="?"):
+        """trait: last path segment of the trait named in the call (None: inherent call, '?': unknown).
+        An impl method whose own trait is known (from the expanded source) must belong to that trait."""
+        key = (meth, ty, tuple(argtys), inherent, exclude.index if exclude is not None else None, trait)
         if key in self._impl_cache:
             return self._impl_cache[key]
         best = (None, None)
@@ -900,7 +902,9 @@ class Executor:
         for b in reversed(self.P.by_method.get(meth, [])):
             if "<impl at" not in b.name or "{closure" in b.name:
                 continue
-            if exclude is not None and (b is exclude or (b.name == exclude.name and b.nparams == exclude.nparams)):
+            if exclude is not None and (b is exclude or (b.name == exclude.name and b.nparams == exclude.nparams and b.trait == "?")):
+                continue
+            if trait != "?" and b.trait != "?" and b.trait != trait:
                 continue
             if len(b.nparams) != len(argtys):
                 continue
@@ -927,10 +931,10 @@ class Executor:
         self._impl_cache[key] = best
         return best
 
-    def find_override(self, default, meth, ty, caller):
+    def find_override(self, default, meth, ty, caller, trait="?"):
         """an impl method overriding a trait default method: same name, and exactly the default's
         signature with Self := ty (associated types resolved)"""
-        key = ("ov", default.index, ty, caller.index if caller is not None else None)
+        key = ("ov", default.index, ty, caller.index if caller is not None else None, trait)
         if key in self._impl_cache:
             return self._impl_cache[key]
         sub = {"Self": ty}
@@ -942,7 +946,12 @@ class Executor:
                 continue
             if caller is not None and (b is caller or (b.name == caller.name and b.nparams == caller.nparams)):
                 continue
+            if trait != "?" and b.trait != "?" and b.trait != trait:
+                continue
             if b.nparams == want_p and b.nret == want_r:
+                if b.trait != "?":
+                    found = b
+                    break
                 # a wrapper of a std trait with the same signature (PartialEq::eq vs HasRefUnit::eq) is not an override
                 # of the crate trait unless it does not delegate to it; such wrappers are only ever *callers* here
                 if any(("as %s>::%s" % (default.name.split("::")[0], meth)) in l for ls in b.blocks.values() for l in ls):
